@@ -35,7 +35,7 @@ static string ints(const vector<int> &v)
 struct Reg
 {
     std::map<const void *, unsigned> alive; // address -> value it was constructed with
-    vector<string> errs;
+    vector<string> errs; // "<failure kind>: <what>" reported by constructors / destructors
     long ctors = 0, dtors = 0;
 };
 static Reg *g_reg = nullptr;
@@ -47,7 +47,7 @@ template <size_t S, size_t Al> struct alignas(Al) Tracked
     {
         g_reg->ctors++;
         if (g_reg->alive.count(this))
-            g_reg->errs.push_back("constructed on top of a live object");
+            g_reg->errs.push_back("lifetime: constructed on top of a live object");
         g_reg->alive[this] = v;
         for (size_t j = 0; j < S; j++)
             b[j] = pat(v, j);
@@ -55,9 +55,25 @@ template <size_t S, size_t Al> struct alignas(Al) Tracked
     ~Tracked()
     {
         g_reg->dtors++;
-        if (!g_reg->alive.count(this))
-            g_reg->errs.push_back("destructor ran on an object that is not alive");
-        g_reg->alive.erase(this);
+        auto it = g_reg->alive.find(this);
+        if (it == g_reg->alive.end())
+            g_reg->errs.push_back("lifetime: destructor ran on an object that is not alive");
+        else
+        {
+            // user code runs on the cell here: the object must still be exactly what the constructor wrote
+            // (the pool may thread its free-list link through the cell only AFTER the destructor)
+            for (size_t j = 0; j < S; j++)
+                if (b[j] != pat(it->second, (unsigned)j))
+                {
+                    g_reg->errs.push_back(mc::fmt("object_overwritten_before_destruction: the destructor found byte %zu of the object changed (constructed %02x)", j,
+                                                  pat(it->second, (unsigned)j))); // (the value found is a piece of an address: not printed)
+                    break;
+                }
+            g_reg->alive.erase(it);
+        }
+        // ... and like a destructor that releases what its members point to, it clears the object: if the pool's link
+        // is already in the cell, the free list is cut and the next walk / allocation shows it
+        memset(b, 0, S);
     }
     Tracked(const Tracked &) = delete;
 };
@@ -555,6 +571,12 @@ struct PoolModel : mc::Model
     {
         vector<int> ord;
         string why;
+        if (!g_reg->errs.empty())
+        {
+            const string &e = g_reg->errs[0];
+            mc::violation(sig(cls, e.substr(0, e.find(':')).c_str()), "after %s: %s", opname(o).c_str(), e.c_str());
+            return true;
+        }
         if (!walk(ord, why))
         {
             mc::violation(sig(cls, "free_list_corrupt"), "after %s: %s; %s", opname(o).c_str(), why.c_str(), state_str().c_str());
@@ -568,11 +590,6 @@ struct PoolModel : mc::Model
             }
         if (!contents_ok(cls, o))
             return true;
-        if (!g_reg->errs.empty())
-        {
-            mc::violation(sig(cls, "lifetime"), "after %s: %s", opname(o).c_str(), g_reg->errs[0].c_str());
-            return true;
-        }
         string w = f->observers(live_tag);
         if (!w.empty())
         {
@@ -677,6 +694,8 @@ struct Large
             char *c = (char *)it;
             if (c < f->zone || c >= f->zone + f->esz * cap || (c - f->zone) % f->esz)
                 return mc::fmt("free_list_corrupt: free-list entry #%zu is not a cell of the zone", n);
+            if (live_tag[(c - f->zone) / f->esz] >= 0)
+                return mc::fmt("live_cell_on_free_list: live cell %ld is on the free list", (long)((c - f->zone) / f->esz));
             if (++n > cap)
                 return "free_list_corrupt: free list is longer than the capacity (cycle)";
         }
@@ -688,11 +707,9 @@ struct Large
     {
         if (failed)
             return;
-        string w = count_walk();
+        string w = reg.errs.empty() ? count_walk() : reg.errs[0];
         if (w.empty())
             w = cap <= 1000 ? f->observers(live_tag) : f->counts(nlive);
-        if (w.empty() && !reg.errs.empty())
-            w = "lifetime: " + reg.errs[0];
         if (!w.empty())
             fail(phase, w.substr(0, w.find(':')), w);
     }
@@ -734,7 +751,7 @@ struct Large
             live_tag[cell] = (int)tag;
             order.push_back(cell);
             nlive++;
-            if (boundary(nlive, cap))
+            if (boundary(nlive, cap) || !reg.errs.empty())
                 observe(phase);
         }
         if (failed)
@@ -777,7 +794,7 @@ struct Large
             f->put(f->zone + (size_t)cell * f->esz);
             if (f->typed() && reg.dtors != d0 + 1)
                 return fail(ph.c_str(), "lifetime", mc::fmt("destroy() ran %ld destructors", reg.dtors - d0));
-            if (boundary(nlive, cap))
+            if (boundary(nlive, cap) || !reg.errs.empty())
                 observe(ph.c_str());
         }
     }
